@@ -44,14 +44,16 @@ BlocksF(bs, j, t, y, o) ==
   IF j > Len(bs) THEN <<>> ELSE BlockF(bs[j], t, y, o) \o BlocksF(bs, j + 1, t, y, o + Width(bs[j]))
 
 \* generic coupled family (C03): f_i = sum_j A_ij y_j + beta_i y_i y_{i+1} + gamma_i t y_i
-\*                                      + delta_i sin(omega_i t) + eps_i t^2
+\*                                      + delta_i sin(omega_i t) + eps_i t^2 + eta_i exp(kappa_i (t - tc_i))
+\* (the last term is a forcing that switches on sharply near tc; eta = 0 when absent)
 GenericF(r, t, y) ==
   LET d == Len(y) IN
   [i \in 1..d |->
-     FAdd(FAdd(FAdd(FSum([j \in 1..d |-> FMul(r.a[i][j], y[j])]),
-                    FMul(r.beta[i], FMul(y[i], y[(i % d) + 1]))),
-               FMul(FMul(r.gamma[i], t), y[i])),
-          FAdd(FMul(r.delta[i], FSin(FMul(r.omega[i], t))), FMul(r.eps[i], FMul(t, t))))]
+     FAdd(FAdd(FAdd(FAdd(FSum([j \in 1..d |-> FMul(r.a[i][j], y[j])]),
+                         FMul(r.beta[i], FMul(y[i], y[(i % d) + 1]))),
+                    FMul(FMul(r.gamma[i], t), y[i])),
+               FAdd(FMul(r.delta[i], FSin(FMul(r.omega[i], t))), FMul(r.eps[i], FMul(t, t)))),
+          IF FEq(r.eta[i], F0) THEN F0 ELSE FMul(r.eta[i], FExp(FMul(r.kappa[i], FSub(t, r.tc[i])))))]
 
 Rhs(r, t, y) == IF r.fam = "generic" THEN GenericF(r, t, y) ELSE BlocksF(r.blocks, 1, t, y, 1)
 
